@@ -17,6 +17,7 @@
 -/
 import SalsaVerif.Props.C15
 import SalsaVerif.Props.C12
+import SalsaVerif.Proofs.CycleFuel
 
 namespace SalsaVerif.Props.C14
 open SalsaVerif.Model.Cycle SalsaVerif.Proofs.Cycle SalsaVerif.Gen.Stamp
@@ -84,7 +85,7 @@ theorem c14_origin_execute (P : Prog) (env : Nat → Nat) :
   | succ d ih =>
     intro c s e h
     unfold execute at h
-    rcases C15.c15_bounded_execute P env _ c _ e h with h1 | ⟨c', s0, h2⟩
+    rcases C15.c15_bounded_execute P env _ c false _ e h with h1 | ⟨c', s0, h2⟩
     · intro hc; rw [h1] at hc; cases hc
     · exact c14_origin_fetch P _ ih c' s0 e h2
 
@@ -179,9 +180,9 @@ theorem c14_propagates_evalM (env : Nat → Nat) (read : Nat → St → Res Fetc
 
 /-- a panic of the body is the outcome of the head loop (no value, no retry). -/
 theorem c14_propagates_loop (P : Prog) (env : Nat → Nat) (read : Nat → St → Res Fetched)
-    (j fuel stamp : Nat) (s : St) (err : Panic)
+    (j fuel stamp : Nat) (outer : Bool) (s : St) (err : Panic)
     (h : evalM env read (P.node j).body s = .error err) :
-    executeMaybeIterate P env read j (fuel + 1) stamp s = .error err := by
+    executeMaybeIterate P env read j outer (fuel + 1) stamp s = .error err := by
   rw [executeMaybeIterate, h]
 
 /-- … and of `execute`. -/
@@ -190,7 +191,7 @@ theorem c14_propagates_execute (P : Prog) (env : Nat → Nat) (d j : Nat) (s : S
       = .error err) :
     execute P env (d + 1) j s = .error err := by
   unfold execute loopFuel
-  exact c14_propagates_loop P env _ j _ _ _ err h
+  exact c14_propagates_loop P env _ j _ _ false _ err h
 
 /-- **c14_self_call (end to end, partial).**  A node without recovery whose first call is to
     itself: a request for it (not memoised, not poisoned) ends in `panic cycle` with stack `[j]`
@@ -215,6 +216,27 @@ theorem c14_self_call_partial (P : Prog) (env : Nat → Nat) (j : Nat) (rest : L
   have h4 : (St.init final poisoned).cache.lookup j = none := rfl
   simp only [h1, h2, h3, h4, hexec]
   rfl
+
+/-- **totality.**  The model functions are total by construction (structural recursion), and
+    for a well-formed program the fuel they recurse on is never exhausted: a request for an
+    existing node ends in a value or in one of salsa's own panic classes — never in the model's
+    artificial `outOfFuel`, and never in a hang. -/
+theorem c14_total (P : Prog) (env : Nat → Nat) (hW : P.Wf) (final : List (Nat × Nat))
+    (poisoned : List Nat) (j : Nat) (hj : j < P.n) :
+    (∃ v s, eval P env final poisoned j = .ok (v, s)) ∨
+    (∃ e, eval P env final poisoned j = .error e ∧
+      (e.cls = .cycle ∨ e.cls = .tooManyIterations ∨ e.cls = .propagated)) := by
+  cases h : eval P env final poisoned j with
+  | ok r => obtain ⟨v, s⟩ := r; exact Or.inl ⟨v, s, rfl⟩
+  | error e =>
+    right
+    refine ⟨e, rfl, ?_⟩
+    have := eval_fuel P env hW final poisoned j hj e h
+    cases hc : e.cls with
+    | cycle => exact Or.inl rfl
+    | tooManyIterations => exact Or.inr (Or.inl rfl)
+    | propagated => exact Or.inr (Or.inr rfl)
+    | outOfFuel => exact absurd hc this
 
 /-! ### the database after a panic -/
 
@@ -282,6 +304,7 @@ example : ((Db.empty.get ex1 envA 0).2.newRevision.get ex1 envB 0).1 = .value 7 
     node 0 recovers; entering the same cycle at node 1 re-enters node 1 and panics.) -/
 example : (Db.empty.get ex1 envB 1).1 = .panic .cycle := by decide
 /-- self call -/
+example : ex1.Wf := by decide
 example : eval ⟨[⟨.panic, .union (.call 0) (.const 1)⟩]⟩ envA [] [] 0 = .error ⟨.cycle, [0]⟩ :=
   c14_self_call_partial _ envA 0 [] [] [] rfl rfl (by simp) rfl
 
